@@ -20,7 +20,7 @@ from . import c11a
 
 CLASSES = ["valid", "first-byte", "second-byte", "zero-ps0", "zero-ps3", "zero-ps7", "no-sep", "short47", "long49",
            "empty-msg", "ver-garbage", "ver-zero", "pub-ge-n", "pub-short", "pub-long", "all-zero-ct", "ct-one",
-           "pub-empty", "pub-one-byte", "pub-half", "pub-ff"]
+           "pub-empty", "pub-one-byte", "pub-half", "pub-ff", "pub-16k", "pub-64k"]
 
 
 def craft(cls, n, e, k, client_version, rnd):
@@ -62,6 +62,10 @@ def craft(cls, n, e, k, client_version, rnd):
         return pm, enc(em)[1:]
     if cls == "pub-long":
         return pm, bytearray([0]) + enc(em)
+    if cls == "pub-16k":
+        return pm, bytearray(rnd.randrange(256) for _ in range(16400))       # spans two records
+    if cls == "pub-64k":
+        return pm, bytearray(rnd.randrange(256) for _ in range(65533))       # the longest a 2-byte length can announce
     if cls == "pub-empty":
         return pm, bytearray()
     if cls == "pub-one-byte":
@@ -104,6 +108,7 @@ def _one(fi, f, cls, seed):
         k = (len(srvPublicKey) + 7) // 8
         pm, ct = craft(cls, srvPublicKey.n, srvPublicKey.e, k, self.clientHello.client_version, rnd)
         self.encPremasterSecret = ct
+        mark["ctlen"] = len(ct)
         mark["at"] = len(p.s2c.sent_log)
         mark["recs"] = sum(1 for e_ in tr.events if e_["ev"] == "R")
         return pm
@@ -116,6 +121,8 @@ def _one(fi, f, cls, seed):
     after = bytes(p.s2c.sent_log[mark["at"]:]) if mark["at"] is not None else b""
     recs = [[r[0], len(r) - 5] for r in split_records(after)]
     consumed = sum(1 for e_ in tr.events if e_["ev"] in ("R", "RE")) - (mark["recs"] or 0)
+    # counted in MESSAGES: a ClientKeyExchange too long for one record occupies several
+    consumed -= max(0, (mark.get("ctlen", 0) + 6 + 16383) // 16384 - 1)
     e = so.exc
     if e is None and so.done:
         result, alert = "ok", 0
